@@ -674,3 +674,21 @@ func MtInvariant(m *PktModel, w *world.World, st PState) []explore.Finding {
 
 var _ = sdk.AccAddress{}
 var _ packettypes.Packet
+
+// nftMint builds a MsgMintNFT to the owner.
+func nftMint(id, class string, owner world.Account) sdk.Msg {
+	return nfttypes.NewMsgMintNFT(id, class, "", "uri-"+id, "", "", owner.Addr.String(), owner.Addr.String())
+}
+
+// nftOnly restricts an NFT scenario's transfers to one token id.
+func nftOnly(s NftScenario, id string) func(m *PktModel, w *world.World, g Ghost) []UserAction {
+	return func(m *PktModel, w *world.World, g Ghost) []UserAction {
+		var out []UserAction
+		for _, a := range s.Actions(m, w, g) {
+			if strings.Contains(a.Label, "/"+id+">") {
+				out = append(out, a)
+			}
+		}
+		return out
+	}
+}
